@@ -134,3 +134,23 @@ Lemma be_at_skip a b p q n : q = len a + p -> be_at (a ++ b) q n = be_at b p n.
 Proof. intros ->. unfold be_at. rewrite bytes_at_skip. reflexivity. Qed.
 Lemma byte_at_skip a b p : byte_at (a ++ b) (len a + p) = byte_at b p.
 Proof. rewrite byte_at_app_r by lia. f_equal. lia. Qed.
+
+Lemma split_at (d : list byte) p : p < len d -> exists a b c, d = a ++ b :: c /\ len a = p.
+Proof.
+  intros H. destruct (nth_split d x00 (n := N.to_nat p)) as (l1 & l2 & E & L); [unfold len in H; lia|].
+  exists l1, (nth (N.to_nat p) d x00), l2. split; [exact E|]. unfold len. lia.
+Qed.
+
+Lemma be_enc_1 b : be_enc 1 (Byte.to_N b) = [b].
+Proof. cbn [be_enc]. change (256 ^ N.of_nat 0) with 1. rewrite N.div_1_r, bN_to_N. reflexivity. Qed.
+
+(* a one-byte big-endian read is data[p] *)
+Lemma be_at_1 d p : be_at d p 1 = byte_at d p.
+Proof.
+  destruct (N.ltb_spec p (len d)) as [H|H].
+  - destruct (split_at d p H) as (a & b & c & -> & <-).
+    change (b :: c) with ([b] ++ c). rewrite <- (be_enc_1 b). rewrite be_at_here.
+    rewrite (byte_at_app_r a) by lia. rewrite N.sub_diag. rewrite be_enc_1. cbn [app]. rewrite byte_at_cons0.
+    f_equal. pose proof (Byte.to_N_bounded b). change (256 ^ N.of_nat 1) with 256. apply N.mod_small. lia.
+  - rewrite be_at_none by (cbn; lia). rewrite byte_at_none by lia. reflexivity.
+Qed.
